@@ -16,10 +16,12 @@ MANIFEST = dict(
          'observed by testing for the code: completion without exception, lexical well-formedness of the text '
          '(`node --check`, scanner), correspondence model == scanned output. Name injectivity (fmt_pascal(ns+name), '
          'fmt_func(ns_route, v), `XReference` / variant interface names) and the closure invariant apiWF are '
-         'hypotheses; apiWF is evaluated on every generated API. Not judged: comment text, TypeScript reserved words, '
+         'hypotheses; apiWF is evaluated on every generated API. Not judged: comment text (beyond staying inside its comment: '
+         'marker words of every doc string must not show up outside comments and string literals), TypeScript reserved words, '
          '--extra-arg / -i / -s / -p. Inputs: every specgen preset, a grid family (every type shape x every position, '
          'the same names in two namespaces, an alias-only namespace), an attribute family (route schemas of every '
-         'printable attribute type x adversarial values x order) and corpus seeds.',
+         'printable attribute type x adversarial values x order), a comment family (every doc site x doc references of every '
+         'tag whose expansion begins / ends with a character of `*/`, between prose that supplies the other one) and corpus seeds.',
     technique='Lean 4 proof + translator + differential correspondence (declaration scanners) + reference oracle + node',
     design='5 C16 / 4.5 DECL')
 
@@ -32,6 +34,7 @@ def run(ck):
     decl_js.suite_names(ck)
     decl_js.suite_grid(ck)
     decl_js.suite_attrs(ck)
+    decl_js.suite_comments(ck)
     ck.stats['time.families_s'] = round(ck.elapsed(), 1)
     decl_js.suite_generated(ck)
     ck.stats['time.suites_s'] = round(ck.elapsed(), 1)
